@@ -1,0 +1,450 @@
+//go:build verif
+
+package db
+
+// Contracts for property C01 (changes feed: the per-channel cache). Comment-only; read by /verif/engine.
+//
+// What is decided here: the representation invariant R of singleChannelCacheImpl (entries strictly ascending by
+// sequence, one entry per document, cachedDocIDs = the documents of the entries, nothing cached below validFrom,
+// length bounded by ChannelCacheMaxLength) is established again by every operation that changes the cache
+// (addToCache, _appendChange, insertChange, _pruneCacheLength, pruneCacheAge, Remove, prependChanges), each with
+// the effect the property needs (latest revision kept, other documents untouched, nothing invented, validFrom
+// only moved to where the cache is still complete, no back-fill over a gap), and the cached read
+// (_getCachedChanges / GetCachedChanges) returns exactly the entries after the resume point, in order, cut to the
+// limit, together with the point from which that answer is complete.
+// Not decided (goroutine/channel code, storage): the merge of per-channel feeds, removal notices across channels,
+// paging/resume tokens, the query itself, late-sequence feeds, cache eviction, continuous/long-poll wake-up.
+//
+// Tags: everything is C01 except prependChanges, which is tagged C01P (`govc check -prop C01P`): its 166
+// obligations all discharge, but a handful (pre-ee, s-pairs, fin-old) take 10-30 s of solver time, so it is kept
+// out of the quick C01 run; delete its `props C01P` line to fold it in.
+//
+// Proof devices: at(k, lvl) (always true, /verif/trusted/c01_trigger.spec) marks an index so that index-quantified
+// facts are instantiated on demand (levels: len of the list for the in-place loops, -1/-2/-5 for named index
+// sets); `after call X#n` clauses are intermediate assertions (proved, then assumed) giving the old<->new index maps.
+
+//@ props C01
+
+// ---- representation invariant of the per-channel cache (the guarantees stated in the header of channel_cache_single.go) ----
+
+// the three utilisation counters exist (initCacheStats creates them with the database)
+//@ pred ccStats(c *singleChannelCacheImpl) bool
+//@   is c.cacheStats != nil && c.cacheStats.ChannelCacheRevsActive != nil && c.cacheStats.ChannelCacheRevsRemoval != nil && c.cacheStats.ChannelCacheRevsTombstone != nil
+//@ pred ccWF(c *singleChannelCacheImpl) bool
+//@   is c != nil && c.options != nil && ccStats(c) && c.cachedDocIDs != nil
+// The guarantees are stated for a list value l (so that the same predicates describe c.logs and, inside
+// insertChange, the list behind its pointer parameter).
+// every slot holds an entry
+//@ pred lNonNil(l LogEntries) bool
+//@   is forall i int :: {l[i]} 0 <= i && i < len(l) ==> l[i] != nil
+// R.1 strictly ascending by sequence
+//@ pred lSorted(l LogEntries) bool
+//@   is forall i int, j int :: {l[i], l[j]} 0 <= i && i < j && j < len(l) ==> l[i].Sequence < l[j].Sequence
+// R.2 one entry per document
+//@ pred lUnique(l LogEntries) bool
+//@   is forall i int, j int :: {l[i], l[j]} 0 <= i && i < j && j < len(l) ==> l[i].DocID != l[j].DocID
+// R.3 cachedDocIDs = { logs[i].DocID }, both inclusions
+//@ pred lDocIn(l LogEntries, c *singleChannelCacheImpl) bool
+//@   is forall i int :: {l[i]} 0 <= i && i < len(l) ==> (l[i].DocID in c.cachedDocIDs)
+//@ pred lDocOnly(l LogEntries, c *singleChannelCacheImpl) bool
+//@   is forall d string :: {d in c.cachedDocIDs} (d in c.cachedDocIDs) ==> (exists k int :: {l[k]} 0 <= k && k < len(l) && l[k].DocID == d)
+// nothing older than validFrom is cached
+//@ pred lFrom(l LogEntries, vf uint64) bool
+//@   is forall i int :: {l[i]} 0 <= i && i < len(l) ==> l[i].Sequence >= vf
+// A sequence number belongs to one document (sequence allocation, C07): an entry with the sequence of the
+// incoming change can only be an entry of the same document.
+//@ pred lSeqOwner(l LogEntries, change *LogEntry) bool
+//@   is forall i int :: {l[i]} 0 <= i && i < len(l) && l[i].Sequence == change.Sequence ==> l[i].DocID == change.DocID
+
+//@ pred ccNonNil(c *singleChannelCacheImpl) bool
+//@   is lNonNil(c.logs)
+//@ pred ccSorted(c *singleChannelCacheImpl) bool
+//@   is lSorted(c.logs)
+//@ pred ccUnique(c *singleChannelCacheImpl) bool
+//@   is lUnique(c.logs)
+//@ pred ccDocIn(c *singleChannelCacheImpl) bool
+//@   is lDocIn(c.logs, c)
+//@ pred ccDocOnly(c *singleChannelCacheImpl) bool
+//@   is lDocOnly(c.logs, c)
+//@ pred ccFrom(c *singleChannelCacheImpl) bool
+//@   is lFrom(c.logs, c.validFrom)
+//@ pred ccSeqOwner(c *singleChannelCacheImpl, change *LogEntry) bool
+//@   is lSeqOwner(c.logs, change)
+//@ pred ccInv(c *singleChannelCacheImpl) bool
+//@   is ccWF(c) && ccNonNil(c) && ccSorted(c) && ccUnique(c) && ccDocIn(c) && ccDocOnly(c) && ccFrom(c)
+
+// Statistics only: reads entry.Flags and adds to one of three atomic counters.
+//@ func singleChannelCacheImpl.UpdateCacheUtilization
+//@   safety on
+//@   requires c != nil && ccStats(c) && entry != nil
+//@   modifies c.cacheStats.ChannelCacheRevsActive.val, c.cacheStats.ChannelCacheRevsRemoval.val, c.cacheStats.ChannelCacheRevsTombstone.val
+
+//@ func singleChannelCacheImpl.wouldBeImmediatelyPruned
+//@   safety on
+//@   requires c != nil && change != nil
+//@   ensures[older] result <==> change.Sequence < c.validFrom
+
+// The cached read: exactly the entries after sinceSeq, in cache order, cut to the limit; validFrom is the
+// point from which the returned list is complete (one past the entry just before the first one returned).
+//@ func singleChannelCacheImpl._getCachedChanges
+//@   safety on
+//@   requires c != nil && ccNonNil(c) && ccSorted(c)
+//@   ensures[limit]   limit > 0 ==> len(result) <= limit
+//@   ensures[empty]   len(c.logs) == 0 ==> len(result) == 0 && validFrom == c.validFrom
+//@   ensures[exact]   len(c.logs) > 0 ==> exists s int :: {at(s, 0)} at(s, 0) && 0 <= s && s <= len(c.logs) &&
+//@                      (forall i int :: {c.logs[i]} 0 <= i && i < s ==> c.logs[i].Sequence <= sinceSeq) &&
+//@                      (forall i int :: {c.logs[i]} s <= i && i < len(c.logs) ==> c.logs[i].Sequence > sinceSeq) &&
+//@                      len(result) == ite(limit > 0 && len(c.logs) - s > limit, limit, len(c.logs) - s) &&
+//@                      (forall k int :: {result[k]} 0 <= k && k < len(result) ==> result[k] == c.logs[s + k]) &&
+//@                      validFrom == ite(s > 0, c.logs[s - 1].Sequence + 1, c.validFrom)
+//@   ensures[after]   forall k int :: {result[k]} 0 <= k && k < len(result) ==> result[k] != nil && result[k].Sequence > sinceSeq
+//@   ensures[seam]    ccFrom(c) && len(result) > 0 ==> result[0].Sequence >= validFrom   // nothing returned lies below the point the answer is valid from
+//@   ensures[fresh]   len(result) > 0 ==> !old(allocated(now(result)))   // the answer is a copy: later changes of the cache do not reach it
+//@   ensures[sorted]  forall a int, b int :: {result[a], result[b]} 0 <= a && a < b && b < len(result) ==> result[a].Sequence < result[b].Sequence
+//@   loop 1 invariant[range] -1 <= start && start < len(log) && log == c.logs
+//@   loop 1 invariant[wit]   at(start + 1, 0)
+//@   loop 1 invariant[after] forall i int :: {log[i]} start < i && i < len(log) ==> log[i].Sequence > sinceSeq
+
+// Length pruning drops the oldest entries, forgets their documents and moves validFrom just past the last one dropped.
+//@ func singleChannelCacheImpl._pruneCacheLength
+//@   safety on
+//@   requires ccInv(c) && c.options.ChannelCacheMaxLength >= 0
+//@   modifies c.validFrom, c.logs, elems(c.cachedDocIDs)
+//@   ensures[count]     pruned == max(old(len(c.logs)) - c.options.ChannelCacheMaxLength, 0)
+//@   ensures[len]       len(c.logs) == old(len(c.logs)) - pruned && len(c.logs) <= c.options.ChannelCacheMaxLength
+//@   ensures[kept]      forall k int :: {c.logs[k]} 0 <= k && k < len(c.logs) ==> c.logs[k] == old(c.logs[k + pruned])
+//@   ensures[kept-fwd]  forall k int :: {old(c.logs[k])} pruned <= k && k < old(len(c.logs)) ==> c.logs[k - pruned] == old(c.logs[k])
+//@   ensures[validFrom] c.validFrom == ite(pruned > 0, old(c.logs[pruned - 1].Sequence) + 1, old(c.validFrom))
+//@   ensures[nowrap]    c.options.ChannelCacheMaxLength > 0 && pruned > 0 ==> c.validFrom > old(c.logs[pruned - 1].Sequence) && c.validFrom >= old(c.validFrom) && old(c.logs[pruned].Sequence) >= c.validFrom
+//@   ensures[wf]        ccWF(c) && c.cachedDocIDs == old(c.cachedDocIDs) && c.options == old(c.options)
+//@   ensures[nonnil]    ccNonNil(c)
+//@   ensures[sorted]    ccSorted(c)
+//@   ensures[unique]    ccUnique(c)
+//@   ensures[docs]      ccDocIn(c)
+//@   ensures[only]      ccDocOnly(c)
+//@   ensures[from]      ccFrom(c)
+//@   loop 1 invariant[range] 0 <= i && i <= pruned && pruned == len(c.logs) - c.options.ChannelCacheMaxLength && c.logs == old(c.logs)
+//@   loop 1 invariant[docs]  forall k int :: {c.logs[k]} i <= k && k < len(c.logs) ==> (c.logs[k].DocID in c.cachedDocIDs)
+//@   loop 1 invariant[only]  forall d string :: {d in c.cachedDocIDs} (d in c.cachedDocIDs) ==> (exists k int :: {c.logs[k]} i <= k && k < len(c.logs) && c.logs[k].DocID == d)
+
+// Age pruning drops entries from the front only, with the same bookkeeping.
+//@ func singleChannelCacheImpl.pruneCacheAge
+//@   safety on
+//@   requires ccInv(c) && c.options.ChannelCacheMinLength >= 0
+//@   modifies c.validFrom, c.logs, elems(c.cachedDocIDs)
+//@   ensures[suffix]    len(c.logs) <= old(len(c.logs)) && (forall k int :: {c.logs[k]} 0 <= k && k < len(c.logs) ==> c.logs[k] == old(c.logs[k + (len(c.logs) - now(len(c.logs)))]))
+//@   ensures[suffix-fwd] forall k int :: {old(c.logs[k])} old(len(c.logs)) - len(c.logs) <= k && k < old(len(c.logs)) ==> c.logs[k - (old(len(c.logs)) - len(c.logs))] == old(c.logs[k])
+//@   ensures[validFrom] c.validFrom == ite(len(c.logs) < old(len(c.logs)), old(c.logs[len(c.logs) - now(len(c.logs)) - 1].Sequence) + 1, old(c.validFrom))
+//@   ensures[wf]        ccWF(c) && c.cachedDocIDs == old(c.cachedDocIDs) && c.options == old(c.options)
+//@   ensures[nonnil]    ccNonNil(c)
+//@   ensures[sorted]    ccSorted(c)
+//@   ensures[unique]    ccUnique(c)
+//@   ensures[docs]      ccDocIn(c)
+//@   ensures[only]      ccDocOnly(c)
+//@   ensures[from]      ccFrom(c)
+//@   loop 1 invariant[shape] 0 <= pruned && pruned <= old(len(c.logs)) && c.logs == old(c.logs)[pruned:]
+//@   loop 1 invariant[head]  pruned < old(len(c.logs)) ==> c.logs[0] == old(c.logs[pruned])
+//@   loop 1 invariant[validFrom] c.validFrom == ite(pruned > 0, old(c.logs[pruned - 1].Sequence) + 1, old(c.validFrom))
+//@   loop 1 invariant[docs]  forall k int :: {old(c.logs[k])} pruned <= k && k < old(len(c.logs)) ==> (old(c.logs[k]).DocID in c.cachedDocIDs)
+//@   loop 1 invariant[only]  forall d string :: {d in c.cachedDocIDs} (d in c.cachedDocIDs) ==> (exists k int :: {old(c.logs[k])} pruned <= k && k < old(len(c.logs)) && old(c.logs[k]).DocID == d)
+//@   loop 1 invariant[fwd]   forall k int :: {old(c.logs[k])} pruned <= k && k < old(len(c.logs)) ==> c.logs[k - pruned] == old(c.logs[k])
+
+// ---- adding a change ----
+
+//@ func singleChannelCacheImpl._adjustFirstSeq
+//@   safety on
+//@   requires c != nil && change != nil
+//@   modifies c.validFrom
+//@   ensures[min] c.validFrom == min(old(c.validFrom), change.Sequence)
+
+// ---- out-of-order insert ----
+//
+// insertChange(log, change) is called as c.insertChange(&c.logs, change); the contract is stated over *log (the engine
+// models the pointer to the field by copy-in/copy-out at the call site: the callee is assumed to reach c.logs only
+// through log, which is the case - the body never mentions c.logs). The deferred closure has its own contract and is
+// applied at each of the four returns; the `before call func` clauses are the index maps old list -> new list at
+// each return (they name the locals i / insertAtIndex) from which the postconditions follow.
+
+// the deferred closure of insertChange: records the document and counts the entry
+//@ func singleChannelCacheImpl.insertChange$1
+//@   requires c != nil && change != nil && c.cachedDocIDs != nil && ccStats(c)
+//@   modifies elems(c.cachedDocIDs)
+//@   ensures[adds] forall d string :: {d in c.cachedDocIDs} (d in c.cachedDocIDs) <==> old(d in c.cachedDocIDs) || d == change.DocID
+
+//@ func singleChannelCacheImpl.insertChange
+//@   safety on
+//@   requires log != nil && ccWF(c) && lNonNil(*log) && lSorted(*log) && lUnique(*log) && lDocIn(*log, c) && lDocOnly(*log, c) && lFrom(*log, c.validFrom)
+//@   requires change != nil && change.Sequence >= c.validFrom && len(*log) > 0
+//@   requires[seq-owner] lSeqOwner(*log, change)
+//@   modifies *log, elems(*log), elems(c.cachedDocIDs)
+//@   before[br-len] call func len(*log) == old(len(*log)) + ite(i < 0, 1, 0)
+//@   before[br-same] call func i >= 0 && old((*log)[i].Sequence) >= change.Sequence ==> *log == old(*log) && old((*log)[i].DocID) == change.DocID &&
+//@                       (forall k int :: {(*log)[k]} 0 <= k && k < len(*log) ==> (*log)[k] == old((*log)[k]))
+//@   before[br-repl] call func i >= 0 && old((*log)[i].Sequence) < change.Sequence && i == insertAtIndex - 1 ==> *log == old(*log) && (*log)[i] == change && old((*log)[i].DocID) == change.DocID &&
+//@                       (forall k int :: {(*log)[k]} 0 <= k && k < len(*log) && k != i ==> (*log)[k] == old((*log)[k])) &&
+//@                       (forall k int :: {old((*log)[k])} 0 <= k && k < len(*log) && k != i ==> (*log)[k] == old((*log)[k]))
+//@   before[br-shift] call func i >= 0 && old((*log)[i].Sequence) < change.Sequence && i < insertAtIndex - 1 ==> *log == old(*log) && insertAtIndex <= len(*log) && (*log)[insertAtIndex - 1] == change && old((*log)[i].DocID) == change.DocID &&
+//@                       (forall k int :: {(*log)[k]} 0 <= k && k < len(*log) && (k < i || k >= insertAtIndex) ==> (*log)[k] == old((*log)[k])) &&
+//@                       (forall k int :: {(*log)[k]} i <= k && k < insertAtIndex - 1 ==> (*log)[k] == old((*log)[k + 1])) &&
+//@                       (forall k int :: {old((*log)[k])} 0 <= k && k < len(*log) && (k < i || k >= insertAtIndex) ==> (*log)[k] == old((*log)[k])) &&
+//@                       (forall k int :: {old((*log)[k])} i < k && k < insertAtIndex ==> (*log)[k - 1] == old((*log)[k]))
+//@   before[br-ins] call func i < 0 ==> 0 <= insertAtIndex && insertAtIndex <= old(len(*log)) && (*log)[insertAtIndex] == change &&
+//@                       (forall k int :: {(*log)[k]} 0 <= k && k < insertAtIndex ==> (*log)[k] == old((*log)[k])) &&
+//@                       (forall k int :: {(*log)[k]} insertAtIndex < k && k < len(*log) ==> (*log)[k] == old((*log)[k - 1])) &&
+//@                       (forall k int :: {old((*log)[k])} 0 <= k && k < insertAtIndex ==> (*log)[k] == old((*log)[k])) &&
+//@                       (forall k int :: {old((*log)[k])} insertAtIndex <= k && k < old(len(*log)) ==> (*log)[k + 1] == old((*log)[k]))
+//@   ensures[wf]      ccWF(c) && c.cachedDocIDs == old(c.cachedDocIDs) && c.options == old(c.options) && c.validFrom == old(c.validFrom)
+//@   ensures[len]     old(len(*log)) <= len(*log) && len(*log) <= old(len(*log)) + 1
+//@   ensures[nonnil]  lNonNil(*log)
+//@   ensures[sorted]  lSorted(*log)
+//@   ensures[unique]  lUnique(*log)
+//@   ensures[docs]    lDocIn(*log, c)
+//@   ensures[only]    lDocOnly(*log, c)
+//@   ensures[from]    lFrom(*log, c.validFrom)
+//@   ensures[present] exists k int :: {(*log)[k]} 0 <= k && k < len(*log) && (*log)[k].DocID == change.DocID && (*log)[k].Sequence >= change.Sequence
+//@   ensures[kept]    forall k int :: {old((*log)[k])} 0 <= k && k < old(len(*log)) && old((*log)[k]).DocID != change.DocID ==> elem(*log, old((*log)[k]))
+//@   ensures[nonew]   forall k int :: {(*log)[k]} 0 <= k && k < len(*log) ==> (*log)[k] == change || old(elem(*log, now((*log)[k])))
+//@   loop 1 invariant[range] -1 <= i && i < len(*log) && 0 <= insertAtIndex && insertAtIndex <= len(*log) && *log == old(*log)
+//@   loop 1 invariant[map]   docIDExists <==> (change.DocID in c.cachedDocIDs)
+//@   loop 1 invariant[unset] insertAtIndex == 0 ==> (forall k int :: {(*log)[k]} i < k && k < len(*log) ==> (*log)[k].Sequence > change.Sequence)
+//@   loop 1 invariant[set]   insertAtIndex > 0 ==> i <= insertAtIndex - 2 && (*log)[insertAtIndex - 1].Sequence < change.Sequence && (forall k int :: {(*log)[k]} insertAtIndex <= k && k < len(*log) ==> (*log)[k].Sequence > change.Sequence)
+//@   loop 1 invariant[nodoc] forall k int :: {(*log)[k]} i < k && k < len(*log) ==> (*log)[k].DocID != change.DocID
+
+// Append (or replace the older entry of the same document, or insert out of order): afterwards the cache holds
+// the latest known revision of the document, every other document keeps its entry, nothing else appears.
+//@ func singleChannelCacheImpl._appendChange
+//@   safety on
+//@   requires ccInv(c) && change != nil && change.Sequence >= c.validFrom
+//@   requires[seq-owner] ccSeqOwner(c, change)
+//@   modifies c.logs, elems(c.logs), elems(c.cachedDocIDs), c.validFrom
+//@   ensures[wf]      ccWF(c) && c.cachedDocIDs == old(c.cachedDocIDs) && c.options == old(c.options) && c.validFrom == old(c.validFrom)
+//@   ensures[len]     old(len(c.logs)) <= len(c.logs) && len(c.logs) <= old(len(c.logs)) + 1 && len(c.logs) >= 1
+//@   ensures[last]    (old(len(c.logs)) == 0 || change.Sequence > old(c.logs[len(c.logs) - 1].Sequence)) ==> c.logs[len(c.logs) - 1] == change
+//@   ensures[nonnil]  ccNonNil(c)
+//@   ensures[sorted]  ccSorted(c)
+//@   ensures[unique]  ccUnique(c)
+//@   ensures[docs]    ccDocIn(c)
+//@   ensures[only]    ccDocOnly(c)
+//@   ensures[from]    ccFrom(c)
+//@   ensures[present] exists k int :: {c.logs[k]} 0 <= k && k < len(c.logs) && c.logs[k].DocID == change.DocID && c.logs[k].Sequence >= change.Sequence
+//@   ensures[kept]    forall k int :: {old(c.logs[k])} 0 <= k && k < old(len(c.logs)) && old(c.logs[k]).DocID != change.DocID ==> elem(c.logs, old(c.logs[k]))
+//@   ensures[nonew]   forall k int :: {c.logs[k]} 0 <= k && k < len(c.logs) ==> c.logs[k] == change || old(elem(c.logs, now(c.logs[k])))
+//@   loop 1 invariant[range] -1 <= i && i <= end && end == len(log) - 1 && log == c.logs && c.logs == old(c.logs)
+//@   loop 1 invariant[scan]  forall k int :: {log[k]} i < k && k <= end ==> log[k].DocID != change.DocID
+//@   after[app] call UpdateCacheUtilization#3 len(c.logs) == old(len(c.logs)) + 1 && c.logs[old(len(c.logs))] == change &&
+//@                      (forall k int :: {c.logs[k]} 0 <= k && k < old(len(c.logs)) ==> c.logs[k] == old(c.logs[k])) &&
+//@                      (forall k int :: {old(c.logs[k])} 0 <= k && k < old(len(c.logs)) ==> c.logs[k] == old(c.logs[k]))
+//@   after[shift] call UpdateCacheUtilization#2 c.logs == old(c.logs) && 0 <= i && i <= end && end == len(c.logs) - 1 && old(c.logs[i]).DocID == change.DocID &&
+//@                      (forall k int :: {log[k]} 0 <= k && k < i ==> log[k] == old(c.logs[k])) &&
+//@                      (forall k int :: {log[k]} i <= k && k < end ==> log[k] == old(c.logs[k + 1])) &&
+//@                      (forall k int :: {old(c.logs[k])} 0 <= k && k < i ==> log[k] == old(c.logs[k])) &&
+//@                      (forall k int :: {old(c.logs[k])} i < k && k <= end ==> log[k - 1] == old(c.logs[k]))
+
+// Top-level add: a change older than validFrom is ignored; otherwise it is recorded (as a removal notice when
+// isRemoval) and the cache is cut back to its maximum length. If the change is still inside the window afterwards,
+// the cache holds an entry of its document that is at least as new. ChannelCacheMaxLength > 0 holds by construction
+// (newChannelCacheWithOptions only overrides the positive default with positive values).
+//@ func singleChannelCacheImpl.addToCache
+//@   safety on
+//@   requires ccInv(c) && change != nil && c.options.ChannelCacheMaxLength > 0 && len(c.logs) <= c.options.ChannelCacheMaxLength
+//@   requires[seq-owner] ccSeqOwner(c, change)
+//@   modifies c.logs, elems(c.logs), elems(c.cachedDocIDs), c.validFrom
+//@   ensures[wf]        ccWF(c) && c.cachedDocIDs == old(c.cachedDocIDs) && c.options == old(c.options)
+//@   ensures[nonnil]    ccNonNil(c)
+//@   ensures[sorted]    ccSorted(c)
+//@   ensures[unique]    ccUnique(c)
+//@   ensures[docs]      ccDocIn(c)
+//@   ensures[only]      ccDocOnly(c)
+//@   ensures[from]      ccFrom(c)
+//@   ensures[bounded]   len(c.logs) <= c.options.ChannelCacheMaxLength
+//@   ensures[skipped]   change.Sequence < old(c.validFrom) ==> c.logs == old(c.logs) && c.validFrom == old(c.validFrom)
+//@   ensures[validFrom] c.validFrom >= old(c.validFrom)
+//@   ensures[cached]    change.Sequence >= c.validFrom ==> (exists k int :: {c.logs[k]} 0 <= k && k < len(c.logs) && c.logs[k].DocID == change.DocID && c.logs[k].Sequence >= change.Sequence)
+//@   ensures[nonew]     change.Sequence >= old(c.validFrom) ==> (forall k int :: {c.logs[k]} 0 <= k && k < len(c.logs) ==> (c.logs[k].DocID == change.DocID && c.logs[k].Sequence == change.Sequence) || old(elem(c.logs, now(c.logs[k]))))
+
+// The public cached read: _getCachedChanges for the resume point and limit of the request (no limit when active_only).
+//@ func singleChannelCacheImpl.GetCachedChanges
+//@   safety on
+//@   requires c != nil && ccNonNil(c) && ccSorted(c)
+//@   modifies c.recentlyUsed
+//@   ensures[limit]   !options.ActiveOnly && options.Limit > 0 ==> len(result) <= options.Limit
+//@   ensures[empty]   len(c.logs) == 0 ==> len(result) == 0 && validFrom == c.validFrom
+//@   ensures[exact]   len(c.logs) > 0 ==> exists s int :: {at(s, 0)} at(s, 0) && 0 <= s && s <= len(c.logs) &&
+//@                      (forall i int :: {c.logs[i]} 0 <= i && i < s ==> c.logs[i].Sequence <= options.Since.SafeSequence()) &&
+//@                      (forall i int :: {c.logs[i]} s <= i && i < len(c.logs) ==> c.logs[i].Sequence > options.Since.SafeSequence()) &&
+//@                      len(result) == ite(!options.ActiveOnly && options.Limit > 0 && len(c.logs) - s > options.Limit, options.Limit, len(c.logs) - s) &&
+//@                      (forall k int :: {result[k]} 0 <= k && k < len(result) ==> result[k] == c.logs[s + k]) &&
+//@                      validFrom == ite(s > 0, c.logs[s - 1].Sequence + 1, c.validFrom)
+//@   ensures[after]   forall k int :: {result[k]} 0 <= k && k < len(result) ==> result[k] != nil && result[k].Sequence > options.Since.SafeSequence()
+//@   ensures[seam]    ccFrom(c) && len(result) > 0 ==> result[0].Sequence >= validFrom
+//@   ensures[fresh]   len(result) > 0 ==> !old(allocated(now(result)))
+//@   ensures[sorted]  forall a int, b int :: {result[a], result[b]} 0 <= a && a < b && b < len(result) ==> result[a].Sequence < result[b].Sequence
+
+// ---- purge ----
+
+// Remove deletes only entries of the listed documents; every other entry stays, in order; the representation
+// invariant is kept. (Loop 2 deletes in place: its invariants are indexed with the marker at(k, len(c.logs)),
+// see /verif/trusted/c01_trigger.spec.)
+//@ func singleChannelCacheImpl.Remove
+//@   safety on
+//@   requires ccInv(c)
+//@   modifies c.logs, elems(c.logs), elems(c.cachedDocIDs)
+//@   ensures[shorter] len(c.logs) <= old(len(c.logs))   // count == old(len) - len is not provable: the named result lives in a local cell the invariants cannot name (engine limitation)
+//@   ensures[wf]      ccWF(c) && c.cachedDocIDs == old(c.cachedDocIDs) && c.options == old(c.options) && c.validFrom == old(c.validFrom)
+//@   ensures[mark]    forall k int :: {c.logs[k]} at(k, len(c.logs))   // proof device: names every index of the final list
+//@   ensures[nonnil]  ccNonNil(c)
+//@   ensures[sorted]  ccSorted(c)
+//@   ensures[unique]  ccUnique(c)
+//@   ensures[docs]    ccDocIn(c)
+//@   ensures[only]    ccDocOnly(c)
+//@   ensures[from]    ccFrom(c)
+//@   ensures[kept]    forall m int :: {old(c.logs[m])} 0 <= m && m < old(len(c.logs)) && !elem(docIDs, old(c.logs[m]).DocID) ==> elem(c.logs, old(c.logs[m]))
+//@   ensures[nonew]   forall k int :: {c.logs[k]} 0 <= k && k < len(c.logs) ==> old(elem(c.logs, now(c.logs[k])))
+//@   loop 1 invariant[fd]      foundDocs != nil && foundDocs != c.cachedDocIDs
+//@   loop 1 invariant[cached]  forall d string :: {d in c.cachedDocIDs} (d in c.cachedDocIDs) <==> old(d in c.cachedDocIDs)
+//@   loop 1 invariant[fd-sub]  forall d string :: {d in foundDocs} (d in foundDocs) ==> elem(docIDs, d)
+//@   loop 2 invariant[fd]      foundDocs != nil && foundDocs != c.cachedDocIDs
+//@   loop 2 invariant[fd-sub]  forall d string :: {d in foundDocs} (d in foundDocs) ==> elem(docIDs, d)
+//@   loop 2 invariant[hdr]     c.logs == old(c.logs)[:len(c.logs)] && len(c.logs) <= old(len(c.logs))
+//@   loop 2 invariant[range]   -1 <= i && i < len(c.logs) && at(i, len(c.logs))
+//@   loop 2 invariant[nonnil]  forall k int :: {at(k, len(c.logs))} at(k, len(c.logs)) && 0 <= k && k < len(c.logs) ==> c.logs[k] != nil
+//@   loop 2 invariant[pairs]   forall a int, b int :: {at(a, len(c.logs)), at(b, len(c.logs))} at(a, len(c.logs)) && at(b, len(c.logs)) && 0 <= a && a < b && b < len(c.logs) ==> c.logs[a].Sequence < c.logs[b].Sequence && c.logs[a].DocID != c.logs[b].DocID
+//@   loop 2 invariant[docs]    forall k int :: {at(k, len(c.logs))} at(k, len(c.logs)) && 0 <= k && k < len(c.logs) ==> (c.logs[k].DocID in c.cachedDocIDs)
+//@   loop 2 invariant[from]    forall k int :: {at(k, len(c.logs))} at(k, len(c.logs)) && 0 <= k && k < len(c.logs) ==> c.logs[k].Sequence >= c.validFrom
+//@   loop 2 invariant[nonew]   forall k int :: {at(k, len(c.logs))} at(k, len(c.logs)) && 0 <= k && k < len(c.logs) ==> old(elem(c.logs, now(c.logs[k])))
+//@   loop 2 invariant[kept]    forall m int :: {old(c.logs[m])} 0 <= m && m < old(len(c.logs)) && !elem(docIDs, old(c.logs[m]).DocID) ==> old(now(elem(c.logs, old(c.logs[m]))))   // old(now(..)): the membership without the index-form hint, which the loop does not need
+//@   loop 2 invariant[only]    forall d string :: {d in c.cachedDocIDs} (d in c.cachedDocIDs) ==> (exists m int :: {old(c.logs[m])} 0 <= m && m < old(len(c.logs)) && old(c.logs[m]).DocID == d && elem(c.logs, old(c.logs[m])))
+//@   after[step] call TracefCtx#1 forall k int :: {at(k, len(c.logs))} at(k, len(c.logs) + 1) && at(k + 1, len(c.logs) + 1)
+
+// ---- the cache-wide high sequence (initial validFrom of caches created later): it never goes down ----
+
+//@ func channelCacheImpl.updateHighCacheSequence
+//@   safety on
+//@   requires c != nil
+//@   modifies c.highCacheSequence
+//@   ensures[max] c.highCacheSequence == max(old(c.highCacheSequence), sequence)
+
+//@ func channelCacheImpl.GetHighCacheSequence
+//@   safety on
+//@   requires c != nil
+//@   ensures[value] result == c.highCacheSequence
+
+//@ func channelCacheImpl.AddPrincipal
+//@   safety on
+//@   requires c != nil && change != nil
+//@   modifies c.highCacheSequence
+//@   ensures[max] c.highCacheSequence == max(old(c.highCacheSequence), change.Sequence)
+
+// an unused range advances the high sequence to the end of the range
+//@ func channelCacheImpl.AddUnusedSequence
+//@   safety on
+//@   requires c != nil && change != nil
+//@   modifies c.highCacheSequence
+//@   ensures[max] c.highCacheSequence == max(old(c.highCacheSequence), ite(change.EndSequence > 0, change.EndSequence, change.Sequence))
+
+// ---- back-fill from a query ----
+
+// x is in the list e, counted from the END (prependChanges grows its block at the front, so a position counted
+// from the end does not move); at(r, -5) is the instantiation marker of the witness.
+//@ pred rmem(e LogEntries, x *LogEntry) bool
+//@   is exists r int :: {at(r, 0 - 5)} at(r, 0 - 5) && 0 <= r && r < len(e) && e[len(e) - 1 - r] == x
+
+// prependChanges(changes, from, to): `changes` is a query answer for the sequence range [from, to] of this channel:
+// entries present, strictly ascending, one per document, none below `from` (what getChangesInChannelFromQuery
+// returns; the caller passes its start sequence as `from`). Afterwards: the representation invariant holds, the old
+// entries are all still there (as the tail of the list), everything new comes from `changes`, nothing is claimed
+// beyond what the query covered (validFrom only moves to `from` or to the sequence of a row), the cache is touched
+// only if the answer reaches up to the old validFrom (no prepending over a gap), and every row between the new and
+// the old validFrom is represented by an entry of its document that is at least as new (no hole below the old entries).
+//@ func singleChannelCacheImpl.prependChanges
+//@   props C01P
+//@   safety on
+//@   requires ccInv(c) && c.options.ChannelCacheMaxLength > 0 && len(c.logs) <= c.options.ChannelCacheMaxLength
+//@   requires[rows] lNonNil(changes) && lFrom(changes, changesValidFrom)
+//   strictly ascending, one row per document (pairwise clause, marked with at(., -2): it is instantiated only for the pairs the proof names)
+//@   requires[rows-pairs] forall x int, y int :: {at(x, 0 - 2), at(y, 0 - 2)} at(x, 0 - 2) && at(y, 0 - 2) && 0 <= x && x < y && y < len(changes) ==> changes[x].Sequence < changes[y].Sequence && changes[x].DocID != changes[y].DocID
+//@   modifies c.logs, elems(c.logs), elems(c.cachedDocIDs), c.validFrom
+//@   ensures[wf]         ccWF(c) && c.cachedDocIDs == old(c.cachedDocIDs) && c.options == old(c.options)
+//@   ensures[count]      result == len(c.logs) - old(len(c.logs)) && result >= 0
+//@   ensures[new-list]   c.logs == old(c.logs) || !old(allocated(now(c.logs)))
+//@   ensures[bounded]    len(c.logs) <= c.options.ChannelCacheMaxLength
+//@   ensures[no-gap]     (c.validFrom != old(c.validFrom) || result > 0) ==> changesValidTo >= old(c.validFrom)
+//@   ensures[claim]      c.validFrom == old(c.validFrom) || c.validFrom >= changesValidFrom
+//@   ensures[only]       ccDocOnly(c)
+//@   ensures[complete]   forall j int :: {old(changes[j])} at(j, 0 - 2) && 0 <= j && j < len(changes) && old(changes[j]).Sequence >= c.validFrom && old(changes[j]).Sequence < old(c.validFrom) ==>
+//@                         (exists k int :: {c.logs[k]} 0 <= k && k < len(c.logs) && c.logs[k].DocID == old(changes[j]).DocID && c.logs[k].Sequence >= old(changes[j]).Sequence)
+//@   ensures[mark]       forall k int :: {c.logs[k]} at(k, result) && at(k + (len(changes) - result), 0 - 2)   // proof device: names the indices of the final list for the clauses below
+//@   ensures[nonnil]     ccNonNil(c)
+//@   ensures[from]       ccFrom(c)
+//@   ensures[docs]       ccDocIn(c)
+//@   ensures[sorted]     ccSorted(c)
+//@   ensures[unique]     ccUnique(c)
+//@   ensures[tail]       forall m int :: {old(c.logs[m])} 0 <= m && m < old(len(c.logs)) ==> c.logs[m + result] == old(c.logs[m])
+//@   ensures[tail-bwd]   forall k int :: {c.logs[k]} result <= k && k < len(c.logs) ==> c.logs[k] == old(c.logs[k - result])
+//   empty cache: the (tail of the) answer becomes the cache
+//@   after[init] call InfofCtx#1 len(c.logs) == len(#changes) && len(#changes) <= len(changes) && len(#changes) <= c.options.ChannelCacheMaxLength && len(#changes) > 0 &&
+//@                      #changesValidFrom == ite(len(#changes) < len(changes), old(changes[len(changes) - len(#changes)]).Sequence, changesValidFrom) &&
+//@                      (forall k int :: {#changes[k]} 0 <= k && k < len(#changes) ==> #changes[k] == old(changes[k + (len(changes) - len(#changes))])) &&
+//@                      (forall k int :: {old(changes[k])} (len(changes) - len(#changes)) <= k && k < len(changes) ==> c.logs[k - (len(changes) - len(#changes))] == old(changes[k])) &&
+//@                      (forall k int :: {c.logs[k]} 0 <= k && k < len(c.logs) ==> c.logs[k] == old(changes[k + (len(changes) - len(#changes))])) && at(len(changes) - len(#changes), 0 - 2)
+//@   loop 1 invariant[idx]   #index < len(#changes) && len(c.logs) == len(#changes)
+//@   loop 1 invariant[docs]  forall k int :: {c.logs[k]} 0 <= k && k <= #index ==> (c.logs[k].DocID in c.cachedDocIDs)
+//@   loop 1 invariant[only]  forall d string :: {d in c.cachedDocIDs} (d in c.cachedDocIDs) ==> (exists k int :: {c.logs[k]} 0 <= k && k <= #index && c.logs[k].DocID == d)
+//   non-empty cache: build the block to prepend from the back of the answer (E = entriesToPrepend, indexed with at(k, len(E)))
+//@   loop 2 invariant[fresh]    !old(allocated(now(entriesToPrepend))) && allocated(changes) && allocated(c.logs) && !sameArray(entriesToPrepend, changes) && !sameArray(entriesToPrepend, c.logs)
+//@   loop 2 invariant[range]    -1 <= i && i < len(changes) && 0 <= len(entriesToPrepend) && len(entriesToPrepend) < cacheCapacity && cacheCapacity == c.options.ChannelCacheMaxLength - len(c.logs) && c.logs == old(c.logs) && c.validFrom == old(c.validFrom) && changesValidFrom < c.validFrom && at(0, len(entriesToPrepend)) && at(i, 0 - 2)
+//@   loop 2 invariant[rows]     forall k int :: {changes[k]} 0 <= k && k < len(changes) ==> changes[k] == old(changes[k])
+//@   loop 2 invariant[logs]     forall k int :: {c.logs[k]} {old(c.logs[k])} 0 <= k && k < len(c.logs) ==> c.logs[k] == old(c.logs[k])
+//@   loop 2 invariant[map-sup]  forall d string :: {d in c.cachedDocIDs} old(d in c.cachedDocIDs) ==> (d in c.cachedDocIDs)
+//@   loop 2 invariant[e-nonnil] forall k int :: {at(k, len(entriesToPrepend))} at(k, len(entriesToPrepend)) && 0 <= k && k < len(entriesToPrepend) ==> entriesToPrepend[k] != nil
+//@   loop 2 invariant[e-seq]    forall k int :: {at(k, len(entriesToPrepend))} at(k, len(entriesToPrepend)) && 0 <= k && k < len(entriesToPrepend) ==> entriesToPrepend[k].Sequence < c.validFrom && entriesToPrepend[k].Sequence >= changesValidFrom
+//@   loop 2 invariant[e-docs]   forall k int :: {at(k, len(entriesToPrepend))} at(k, len(entriesToPrepend)) && 0 <= k && k < len(entriesToPrepend) ==> (entriesToPrepend[k].DocID in c.cachedDocIDs) && !old(now(entriesToPrepend[k].DocID) in c.cachedDocIDs)
+//@   loop 2 invariant[e-pairs]  forall a int, b int :: {at(a, len(entriesToPrepend)), at(b, len(entriesToPrepend))} at(a, len(entriesToPrepend)) && at(b, len(entriesToPrepend)) && 0 <= a && a < b && b < len(entriesToPrepend) ==> entriesToPrepend[a].Sequence < entriesToPrepend[b].Sequence && entriesToPrepend[a].DocID != entriesToPrepend[b].DocID
+//@   loop 2 invariant[e-ends]   len(entriesToPrepend) > 0 ==> entriesToPrepend[0] != nil && entriesToPrepend[len(entriesToPrepend) - 1] != nil
+//@   loop 2 invariant[e-min]    len(entriesToPrepend) > 0 ==> (forall j int :: {at(j, 0 - 2)} at(j, 0 - 2) && 0 <= j && j <= i ==> old(changes[j]).Sequence < entriesToPrepend[0].Sequence)
+//@   loop 2 invariant[map-only] forall d string :: {d in c.cachedDocIDs} (d in c.cachedDocIDs) ==> old(d in c.cachedDocIDs) || (exists j int :: {old(changes[j])} at(j, 0 - 2) && i < j && j < len(changes) && old(changes[j]).DocID == d && rmem(entriesToPrepend, old(changes[j])))
+//@   loop 2 invariant[seen]     forall j int :: {old(changes[j])} i < j && j < len(changes) && old(changes[j]).Sequence < c.validFrom ==> old(changes[j].DocID in c.cachedDocIDs) || rmem(entriesToPrepend, old(changes[j]))
+//@   after[step] call UpdateCacheUtilization#2 forall k int :: {at(k, len(entriesToPrepend))} at(k, len(entriesToPrepend) - 1) && at(k - 1, len(entriesToPrepend) - 1)
+//@   after[s-head]   call UpdateCacheUtilization#2 len(entriesToPrepend) >= 1 && entriesToPrepend[0] == change && change == old(changes[i]) && at(0, len(entriesToPrepend)) && at(len(entriesToPrepend) - 1, 0 - 5)
+//@   after[s-seen]   call UpdateCacheUtilization#2 forall j int :: {old(changes[j])} i <= j && j < len(changes) && old(changes[j]).Sequence < c.validFrom ==> old(changes[j].DocID in c.cachedDocIDs) || rmem(entriesToPrepend, old(changes[j]))
+//@   after[s-map]    call UpdateCacheUtilization#2 forall d string :: {d in c.cachedDocIDs} (d in c.cachedDocIDs) ==> old(d in c.cachedDocIDs) || (exists j int :: {old(changes[j])} at(j, 0 - 2) && i <= j && j < len(changes) && old(changes[j]).DocID == d && rmem(entriesToPrepend, old(changes[j])))
+//   the invariants again, for the block just extended (so that the path that breaks out of the loop has them in the same form)
+//@   after[s-fresh]  call UpdateCacheUtilization#2 !old(allocated(now(entriesToPrepend))) && allocated(changes) && allocated(c.logs) && !sameArray(entriesToPrepend, changes) && !sameArray(entriesToPrepend, c.logs) && len(entriesToPrepend) >= 1 && len(entriesToPrepend) <= cacheCapacity && entriesToPrepend[0] == change && change == old(changes[i]) && entriesToPrepend[0] != nil && at(0, len(entriesToPrepend))
+//@   after[s-last]   call UpdateCacheUtilization#2 entriesToPrepend[len(entriesToPrepend) - 1] != nil
+//@   after[s-rows]   call UpdateCacheUtilization#2 forall k int :: {changes[k]} 0 <= k && k < len(changes) ==> changes[k] == old(changes[k])
+//@   after[s-logs]   call UpdateCacheUtilization#2 forall k int :: {c.logs[k]} {old(c.logs[k])} 0 <= k && k < len(c.logs) ==> c.logs[k] == old(c.logs[k])
+//@   after[s-sup]    call UpdateCacheUtilization#2 forall d string :: {d in c.cachedDocIDs} old(d in c.cachedDocIDs) ==> (d in c.cachedDocIDs)
+//@   after[s-nonnil] call UpdateCacheUtilization#2 forall k int :: {at(k, len(entriesToPrepend))} at(k, len(entriesToPrepend)) && 0 <= k && k < len(entriesToPrepend) ==> entriesToPrepend[k] != nil
+//@   after[s-seq]    call UpdateCacheUtilization#2 forall k int :: {at(k, len(entriesToPrepend))} at(k, len(entriesToPrepend)) && 0 <= k && k < len(entriesToPrepend) ==> entriesToPrepend[k].Sequence < c.validFrom && entriesToPrepend[k].Sequence >= changesValidFrom && entriesToPrepend[k].Sequence >= change.Sequence
+//@   after[s-docs]   call UpdateCacheUtilization#2 forall k int :: {at(k, len(entriesToPrepend))} at(k, len(entriesToPrepend)) && 0 <= k && k < len(entriesToPrepend) ==> (entriesToPrepend[k].DocID in c.cachedDocIDs) && !old(now(entriesToPrepend[k].DocID) in c.cachedDocIDs)
+//@   after[s-pairs]  call UpdateCacheUtilization#2 forall a int, b int :: {at(a, len(entriesToPrepend)), at(b, len(entriesToPrepend))} at(a, len(entriesToPrepend)) && at(b, len(entriesToPrepend)) && 0 <= a && a < b && b < len(entriesToPrepend) ==> entriesToPrepend[a].Sequence < entriesToPrepend[b].Sequence && entriesToPrepend[a].DocID != entriesToPrepend[b].DocID
+//@   after[s-min]    call UpdateCacheUtilization#2 forall j int :: {at(j, 0 - 2)} at(j, 0 - 2) && 0 <= j && j < i ==> old(changes[j]).Sequence < entriesToPrepend[0].Sequence
+//@   after[pre-len] call InfofCtx#2 len(c.logs) == len(entriesToPrepend) + old(len(c.logs)) && len(entriesToPrepend) > 0
+//@   after[pre-new] call InfofCtx#2 forall k int :: {c.logs[k]} 0 <= k && k < len(entriesToPrepend) ==> c.logs[k] == entriesToPrepend[k]
+//@   after[pre-bwd] call InfofCtx#2 forall k int :: {c.logs[k]} len(entriesToPrepend) <= k && k < len(c.logs) ==> c.logs[k] == old(c.logs[k - len(entriesToPrepend)])
+//@   after[pre-fwd] call InfofCtx#2 forall k int :: {old(c.logs[k])} 0 <= k && k < old(len(c.logs)) ==> c.logs[k + len(entriesToPrepend)] == old(c.logs[k])
+//@   after[pre-map] call InfofCtx#2 forall d string :: {d in c.cachedDocIDs} (d in c.cachedDocIDs) ==> old(d in c.cachedDocIDs) || (exists j int :: {old(changes[j])} 0 <= j && j < len(changes) && old(changes[j]).DocID == d && rmem(c.logs[:len(entriesToPrepend)], old(changes[j])))
+//@   after[pre-seen] call InfofCtx#2 forall j int :: {old(changes[j])} 0 <= j && j < len(changes) && old(changes[j]).Sequence >= #changesValidFrom && old(changes[j]).Sequence < c.validFrom ==> old(changes[j].DocID in c.cachedDocIDs) || rmem(c.logs[:len(entriesToPrepend)], old(changes[j]))
+//@   after[pre-old]  call InfofCtx#2 forall d string :: {old(d in c.cachedDocIDs)} old(d in c.cachedDocIDs) ==> (exists k int :: {c.logs[k]} 0 <= k && k < len(c.logs) && c.logs[k].DocID == d)
+//@   after[pre-newd] call InfofCtx#2 forall d string :: {d in c.cachedDocIDs} (d in c.cachedDocIDs) && !old(d in c.cachedDocIDs) ==> (exists k int :: {c.logs[k]} 0 <= k && k < len(c.logs) && c.logs[k].DocID == d)
+//@   after[pre-only] call InfofCtx#2 forall d string :: {d in c.cachedDocIDs} (d in c.cachedDocIDs) ==> (exists k int :: {c.logs[k]} 0 <= k && k < len(c.logs) && c.logs[k].DocID == d)
+//@   after[pre-comp-old] call InfofCtx#2 forall j int :: {old(changes[j])} at(j, 0 - 2) && 0 <= j && j < len(changes) && old(changes[j]).Sequence >= #changesValidFrom && old(changes[j]).Sequence < c.validFrom && old(changes[j].DocID in c.cachedDocIDs) ==> (exists k int :: {c.logs[k]} 0 <= k && k < len(c.logs) && c.logs[k].DocID == old(changes[j]).DocID && c.logs[k].Sequence >= old(changes[j]).Sequence)
+//@   after[pre-comp-new] call InfofCtx#2 forall j int :: {old(changes[j])} at(j, 0 - 2) && 0 <= j && j < len(changes) && old(changes[j]).Sequence >= #changesValidFrom && old(changes[j]).Sequence < c.validFrom && !old(changes[j].DocID in c.cachedDocIDs) ==> (exists k int :: {c.logs[k]} 0 <= k && k < len(c.logs) && c.logs[k].DocID == old(changes[j]).DocID && c.logs[k].Sequence >= old(changes[j]).Sequence)
+//@   after[pre-complete] call InfofCtx#2 forall j int :: {old(changes[j])} at(j, 0 - 2) && 0 <= j && j < len(changes) && old(changes[j]).Sequence >= #changesValidFrom && old(changes[j]).Sequence < c.validFrom ==> (exists k int :: {c.logs[k]} 0 <= k && k < len(c.logs) && c.logs[k].DocID == old(changes[j]).DocID && c.logs[k].Sequence >= old(changes[j]).Sequence)
+//@   after[pre-e1]   call InfofCtx#2 forall k int :: {c.logs[k]} at(k, len(entriesToPrepend)) && 0 <= k && k < len(entriesToPrepend) ==> c.logs[k] != nil && c.logs[k].Sequence < c.validFrom && c.logs[k].Sequence >= changesValidFrom && c.logs[k].Sequence >= #changesValidFrom && (c.logs[k].DocID in c.cachedDocIDs) && !old(now(c.logs[k].DocID) in c.cachedDocIDs)
+//@   after[pre-ee]   call InfofCtx#2 forall a int, b int :: {c.logs[a], c.logs[b]} at(a, len(entriesToPrepend)) && at(b, len(entriesToPrepend)) && 0 <= a && a < b && b < len(entriesToPrepend) ==> c.logs[a].Sequence < c.logs[b].Sequence && c.logs[a].DocID != c.logs[b].DocID
+//@   after[pre-nonnil] call InfofCtx#2 lNonNil(c.logs)
+//@   after[pre-from] call InfofCtx#2 lFrom(c.logs, #changesValidFrom) && #changesValidFrom < c.validFrom && #changesValidFrom >= changesValidFrom
+//@   after[pre-docs] call InfofCtx#2 lDocIn(c.logs, c)
+//@   after[pre-sorted] call InfofCtx#2 lSorted(c.logs)
+//@   after[pre-unique] call InfofCtx#2 lUnique(c.logs)
+//   the same at the end of the non-empty branch (nothing prepended: the list is unchanged), before validFrom is moved
+//@   after[fin-old]      call DebugfCtx#2 forall d string :: {old(d in c.cachedDocIDs)} old(d in c.cachedDocIDs) ==> (exists k int :: {c.logs[k]} 0 <= k && k < len(c.logs) && c.logs[k].DocID == d)
+//@   after[fin-new]      call DebugfCtx#2 forall d string :: {d in c.cachedDocIDs} (d in c.cachedDocIDs) && !old(d in c.cachedDocIDs) ==> (exists k int :: {c.logs[k]} 0 <= k && k < len(c.logs) && c.logs[k].DocID == d)
+//@   after[fin-only]     call DebugfCtx#2 ccDocOnly(c)
+//@   after[fin-complete] call DebugfCtx#2 forall j int :: {old(changes[j])} at(j, 0 - 2) && 0 <= j && j < len(changes) && old(changes[j]).Sequence >= #changesValidFrom && old(changes[j]).Sequence < c.validFrom ==> (exists k int :: {c.logs[k]} 0 <= k && k < len(c.logs) && c.logs[k].DocID == old(changes[j]).DocID && c.logs[k].Sequence >= old(changes[j]).Sequence)
+//@   after[fin-nonnil]   call DebugfCtx#2 ccNonNil(c)
+//@   after[fin-from]     call DebugfCtx#2 lFrom(c.logs, #changesValidFrom) && #changesValidFrom < c.validFrom && #changesValidFrom >= changesValidFrom
+//@   after[fin-docs]     call DebugfCtx#2 ccDocIn(c)
+//@   after[fin-sorted]   call DebugfCtx#2 ccSorted(c)
+//@   after[fin-unique]   call DebugfCtx#2 ccUnique(c)
